@@ -3,7 +3,9 @@
 //! Grid (quick = thorough = the whole grid; thorough adds more PRNG cases): for each of the 40
 //! account types (13 discriminant widths 0,1,2,3,4,5,6,7,8,12,16,24,32 × zero-copy/fixed-borsh/variable-borsh + the closed-marker
 //! type; plus 12 types declared through every other declaration form, see progs.rs): owner ∈ {the program NAMED
-//! in the declaration, each of its 256 single-bit flips, System, every other harness program}; data length 0..W+3 (and
+//! in the declaration, each of its 256 single-bit flips, System, every other harness program, and the multi-word
+//! deviations a folded comparison would cancel (`cancelling_variants`: equal xor masks in 2..4 words, +m/-m, swapped
+//! words, every 2-bit deviation (b, b+64k), byte pairs; the same for discriminants of >= 16 bytes)}; data length 0..W+3 (and
 //! W+8); discriminant prefix ∈ {exact, every single-byte deviation, all-0xFF, all-zero}; writable
 //! t/f; data borrowed (exclusively / 7 shared / 1 shared) or not; then `close_account` and
 //! re-validation. Observed: class of decode, `validate_accounts`, `data()`, `data_mut()`.
@@ -190,6 +192,77 @@ fn observe_ops(d: &mut Driver<C08Oracle>, kind: Kind, borrows: bool, close: bool
     }
 }
 
+/// Deviations of a byte string of at least two 8-byte words that a FOLDED (xor / add) word-wise comparison would
+/// cancel (the generator of C09's `adversarial_variants`, for any width): the same xor mask in every subset of ≥ 2
+/// words, +m / −m in two words, swapped words, reversed / inverted bytes, every 2-bit deviation (b, b + 64k), and one
+/// byte value xor-ed into bytes i and i + 8k.
+fn cancelling_variants(base: &[u8], rng: &mut Rng) -> Vec<(String, Vec<u8>)> {
+    let nw = base.len() / 8;
+    let mut out: Vec<(String, Vec<u8>)> = vec![];
+    if nw < 2 {
+        return out;
+    }
+    let word = |k: &[u8], i: usize| u64::from_le_bytes(k[i * 8..i * 8 + 8].try_into().unwrap());
+    let set = |k: &mut [u8], i: usize, v: u64| k[i * 8..i * 8 + 8].copy_from_slice(&v.to_le_bytes());
+    for subset in 1u32..(1 << nw) {
+        if subset.count_ones() < 2 {
+            continue;
+        }
+        for (mi, mask) in [1u64, 0x80, 1 << 63, 0xA5 << 40, rng.next() | 1, u64::MAX].into_iter().enumerate() {
+            let mut k = base.to_vec();
+            for i in 0..nw {
+                if subset & (1 << i) != 0 {
+                    let w = word(&k, i) ^ mask;
+                    set(&mut k, i, w);
+                }
+            }
+            out.push((format!("xor{subset:x}m{mi}"), k));
+        }
+    }
+    for i in 0..nw {
+        for j in 0..nw {
+            if i == j {
+                continue;
+            }
+            for (mi, m) in [1u64, 0x100, rng.next() | 1].into_iter().enumerate() {
+                let mut k = base.to_vec();
+                let (wi, wj) = (word(&k, i).wrapping_add(m), word(&k, j).wrapping_sub(m));
+                set(&mut k, i, wi);
+                set(&mut k, j, wj);
+                out.push((format!("add{i}sub{j}m{mi}"), k));
+            }
+            if i < j {
+                let mut k = base.to_vec();
+                let (wi, wj) = (word(base, i), word(base, j));
+                set(&mut k, i, wj);
+                set(&mut k, j, wi);
+                out.push((format!("swap{i}_{j}"), k));
+                // every 2-bit deviation: the same bit of two words
+                for b in 0..64 {
+                    let mut k = base.to_vec();
+                    k[i * 8 + b / 8] ^= 1 << (b % 8);
+                    k[j * 8 + b / 8] ^= 1 << (b % 8);
+                    out.push((format!("bits{}_{}", i * 64 + b, j * 64 + b), k));
+                }
+                // one byte value xor-ed into the same byte of two words
+                for pos in 0..8 {
+                    let v = (rng.next() as u8) | 1;
+                    let mut k = base.to_vec();
+                    k[i * 8 + pos] ^= v;
+                    k[j * 8 + pos] ^= v;
+                    out.push((format!("byte{}_{}", i * 8 + pos, j * 8 + pos), k));
+                }
+            }
+        }
+    }
+    let mut r = base.to_vec();
+    r.reverse();
+    out.push(("reversed".into(), r));
+    out.push(("inverted".into(), base.iter().map(|b| !b).collect()));
+    out.retain(|(_, k)| k[..] != base[..]);
+    out
+}
+
 fn flip(k: &[u8; 32], bit: usize) -> [u8; 32] {
     let mut o = *k;
     o[bit / 8] ^= 1 << (bit % 8);
@@ -218,6 +291,7 @@ pub fn run(args: &Args) {
         return;
     }
     let ntypes = d.it.table.len();
+    let mut rng_adv = Rng::new(args.seed ^ 0xADAD);
     let mut id = 0u64;
     let sys = [0u8; 32];
     for c in crate::corpus_cases("C08") {
@@ -261,6 +335,35 @@ pub fn run(args: &Args) {
                     d.op(&l);
                     observe_ops(&mut d, kind, false, oi < 4);
                     d.rec.bump("grid:owner_sweep");
+                }
+            }
+        }
+        // (a') owners that differ from the program id in SEVERAL words at once, in ways a folded word-wise comparison cancels
+        for (ai, (aname, owner)) in cancelling_variants(&pid, &mut rng_adv).into_iter().enumerate() {
+            let owner: [u8; 32] = owner.try_into().unwrap();
+            id += 1;
+            d.case(&format!("case {id} owner-adv {} w{w} {aname}", kind.name()));
+            let l = setup_line(&d.it.table[ti], &owner, ai % 2 == 0, &exact);
+            d.op(&l);
+            observe_ops(&mut d, kind, false, false);
+            d.rec.bump("grid:owner_adversarial");
+        }
+        // (b') the same for discriminants of two or more words (W >= 16), under the right owner
+        for (aname, prefix) in cancelling_variants(&disc, &mut rng_adv) {
+            for len in [w, w + body_ok] {
+                let mut data = prefix.clone();
+                data.extend_from_slice(&exact[w..]);
+                data.truncate(len);
+                for writable in [true, false] {
+                    id += 1;
+                    d.case(&format!("case {id} disc-adv {} w{w} len{len} {aname} wr{}", kind.name(), writable as u8));
+                    let l = setup_line(&d.it.table[ti], &pid, writable, &data);
+                    d.op(&l);
+                    observe_ops(&mut d, kind, false, false);
+                    d.rec.bump("grid:disc_adversarial");
+                }
+                if body_ok == 0 {
+                    break;
                 }
             }
         }
